@@ -2,9 +2,11 @@ CONSTANTS
  P = {"pa", "pb", "pc"}
  N = {"n1", "n2"}
  P0 = "pa"
- AllowAmb = TRUE
- MaxDepth = 10
+ AllowAmb = FALSE
+ MaxDepth = 5
 INIT GInit
 NEXT RNext
-INVARIANT EmitState
+VIEW RView
+INVARIANT Inv
+ACTION_CONSTRAINT EmitR
 CHECK_DEADLOCK FALSE
